@@ -237,10 +237,13 @@ def check_c16(rng, n):
     drv = Driver()
     try:
         for i in range(n):
-            unit = rng.choice(["seconds", "minutes", "hours", 30, 60, 120, 7, 1])
+            unit = rng.choice(["seconds", "minutes", "hours", 30, 60, 120, 7, 1, 300, 900, 49])
             m = {"seconds": 1, "minutes": 60, "hours": 3600}.get(unit, unit)
             # a physical configuration, in seconds, whole multiples of every unit used
             k1, k2 = rng.randint(0, 5), rng.randint(1, 6)
+            if rng.random() < 0.4:
+                # larger whole multiples: exact under a correctly rounded division, not under "multiply by 1/unit"
+                k1, k2 = rng.randint(0, 70), rng.randint(1, 70)
             start, duration = k1 * m, k2 * m
             rate = rng.randint(1, 9)
             frac = rng.random() < 0.25
